@@ -76,6 +76,28 @@ Theorem c03_state_tracks_order_in_effect :
 Proof. exact run_agrees. Qed.
 Print Assumptions c03_state_tracks_order_in_effect.
 
+(* ---- (b') the SELECT of a CTE is widened by the columns of the CTE's final sorting (tail of fold_sql_transforms), so that
+   readers can ORDER BY them: every sort column is selected afterwards and what was selected keeps its position *)
+Theorem c03_cte_select_carries_sort_columns : forall sort_cols sel,
+  (forall c, In c sort_cols -> In c (Sorts.widen sel sort_cols)) /\ exists extra, Sorts.widen sel sort_cols = sel ++ extra.
+Proof. exact widen_covers. Qed.
+Print Assumptions c03_cte_select_carries_sort_columns.
+
+(* ... but a set operation or a recursive CTE pairs that SELECT with an operand the inference does not touch.
+   Full statement (FALSE, finding C07-N12):  forall main sel sort_cols, arity_kept main sel sort_cols = true *)
+Theorem c03_setop_arity_kept_partial : forall main sel sort_cols,
+  (main = true \/ forall c, In c sort_cols -> In c sel) -> Sorts.arity_kept main sel sort_cols = true.
+Proof. exact arity_kept_partial. Qed.
+Print Assumptions c03_setop_arity_kept_partial.
+
+(* `let x = (from t | sort b)` then `from x | select {a} | append (from u | select {a}) | take 2`: the CTE holding the UNION ALL
+   inherits x's sorting; its first SELECT [4] (a) is widened by the sort column 0 (b): `SELECT a, b FROM x UNION ALL SELECT a FROM u`.
+   (In `from t | sort b | select {a} | append ..` the same column is added one stage earlier, by the anchor's requirement of
+   the Sort: that half of C07-N12 belongs to the split_off_back model.) *)
+Theorem c03_setop_arity_kept_refuted : Sorts.arity_kept false [4%nat] [0%nat] = false.
+Proof. vm_compute. reflexivity. Qed.
+Print Assumptions c03_setop_arity_kept_refuted.
+
 (* ---- (c) resolver side: model of the Flattener (semantic/resolver/flatten.rs as of fixes 8f24a64, 592b6f8, 8d54bf7,
    f809321), compared with the implementation's RQ (Take.sort, Compute.window.sort, sizes of the partitions, surviving
    Sort transforms) on every generated program.  Whatever sorts are dropped in front of a group, every take and every
